@@ -288,6 +288,9 @@ impl<T: Socket + ?Sized> Worker<T> {
     fn send_packet(&self, packet: &Packet) -> Result<(), Box<dyn Error>> {
         for i in 0..self.repeat_amount {
             if i > 0 {
+                #[cfg(feature = "verif")]
+                crate::verif::sleep(DEFAULT_DUPLICATE_DELAY);
+                #[cfg(not(feature = "verif"))]
                 std::thread::sleep(DEFAULT_DUPLICATE_DELAY);
             }
             self.socket.send(packet)?;
